@@ -52,6 +52,7 @@ BIG = 'BIG-' + 'x' * 12 + '\n' + 'y' * 10            # file-backed, written in t
 BIG2 = 'BIG2' + 'z' * 12 + '\n' + 'w' * 10
 SMALL = 'sm'
 EXPECTED_SIGS = ('block_crash_lost_file',)
+SETUP_NOW = 900.0
 
 
 # ---------------------------------------------------------------------------
@@ -78,7 +79,7 @@ def workloads():
             ('setitem-replace', base, {'op': 'setitem', 'key': 'k', 'value': new}),
             ('add-new', [], {'op': 'add', 'key': 'k', 'value': new}),
             ('add-present', base, {'op': 'add', 'key': 'k', 'value': new}),
-            ('add-expired', [{'op': 'set', 'key': 'k', 'value': old, 'expire': -1}], {'op': 'add', 'key': 'k', 'value': new}),
+            ('add-expired', [{'op': 'set', 'key': 'k', 'value': old, 'expire': 50}], {'op': 'add', 'key': 'k', 'value': new}),
             ('touch', base, {'op': 'touch', 'key': 'k', 'expire': 50}),
             ('pop', base, {'op': 'pop', 'key': 'k'}),
             ('delete', base, {'op': 'delete', 'key': 'k'}),
@@ -86,27 +87,28 @@ def workloads():
             ('push', base, {'op': 'push', 'value': new}),
             ('push-front-prefix', base, {'op': 'push', 'value': new, 'prefix': 'q', 'side': 'front'}),
             ('pull', [{'op': 'push', 'value': old}, {'op': 'push', 'value': new}], {'op': 'pull'}),
-            ('pull-expired-head', [{'op': 'push', 'value': old, 'expire': -1}, {'op': 'push', 'value': new}], {'op': 'pull'}),
-            ('peek-expired-head', [{'op': 'push', 'value': old, 'expire': -1}, {'op': 'push', 'value': new}], {'op': 'peek'}),
-            ('peekitem-expired', [{'op': 'set', 'key': 'a', 'value': new}, {'op': 'set', 'key': 'k', 'value': old, 'expire': -1}], {'op': 'peekitem'}),
-            ('set-culls-expired', [{'op': 'set', 'key': 'dead', 'value': old, 'expire': -1}], {'op': 'set', 'key': 'k', 'value': new}),
+            ('pull-expired-head', [{'op': 'push', 'value': old, 'expire': 50}, {'op': 'push', 'value': new}], {'op': 'pull'}),
+            ('peek-expired-head', [{'op': 'push', 'value': old, 'expire': 50}, {'op': 'push', 'value': new}], {'op': 'peek'}),
+            ('peekitem-expired', [{'op': 'set', 'key': 'a', 'value': new}, {'op': 'set', 'key': 'k', 'value': old, 'expire': 50}], {'op': 'peekitem'}),
+            ('set-culls-expired', [{'op': 'set', 'key': 'dead', 'value': old, 'expire': 50}], {'op': 'set', 'key': 'k', 'value': new}),
         ]
         if vname in ('inline', 'file'):
             cases += [
                 ('clear', base, {'op': 'clear'}),
                 ('evict', [{'op': 'set', 'key': 'k', 'value': old, 'tag': 't'}, {'op': 'set', 'key': 'o', 'value': new, 'tag': 't'},
                            {'op': 'set', 'key': 'keep', 'value': old}], {'op': 'evict', 'tag': 't'}),
-                ('expire', [{'op': 'set', 'key': 'k', 'value': old, 'expire': -1}, {'op': 'set', 'key': 'o', 'value': new, 'expire': -2},
+                ('expire', [{'op': 'set', 'key': 'k', 'value': old, 'expire': 50}, {'op': 'set', 'key': 'o', 'value': new, 'expire': 40},
                             {'op': 'set', 'key': 'keep', 'value': old}], {'op': 'expire'}),
-                ('cull', [{'op': 'set', 'key': 'k', 'value': old, 'expire': -1}, {'op': 'set', 'key': 'keep', 'value': old}], {'op': 'cull'}),
+                ('cull', [{'op': 'set', 'key': 'k', 'value': old, 'expire': 50}, {'op': 'set', 'key': 'keep', 'value': old}], {'op': 'cull'}),
             ]
         if vname == 'inline':
             cases += [('incr-new', [], {'op': 'incr', 'key': 'k', 'delta': 3}), ('incr-present', base, {'op': 'incr', 'key': 'k', 'delta': 3}),
                       ('decr-present', base, {'op': 'decr', 'key': 'k'})]
         if vname == 'file':
-            cases += [('incr-expired-file', [{'op': 'set', 'key': 'k', 'value': old, 'expire': -1}], {'op': 'incr', 'key': 'k', 'delta': 3})]
+            cases += [('incr-expired-file', [{'op': 'set', 'key': 'k', 'value': old, 'expire': 50}], {'op': 'incr', 'key': 'k', 'delta': 3})]
         for cname, setup, call in cases:
-            # cull_limit 0 in the setup phase keeps dead-on-arrival items in place until the workload runs
+            # the setup runs at virtual time SETUP_NOW = 900 (ttl 50 -> expire_time 950), the workload at 1000: items
+            # stored with a ttl in the setup are expired but still in the table when the workload starts
             out.append(W('cache:%s:%s' % (cname, vname), 'cache', setup, pre + [call] + post))
             out.append(W('cache:%s:%s:block' % (cname, vname), 'cache', setup, pre + in_block([call, {'op': 'incr', 'key': 'n'}]) + post))
     # nested block with several effects
@@ -191,7 +193,7 @@ def bulk_prefix_states(ref, call):
 
 def lib_check(c, fix=False):
     with warnings.catch_warnings():
-        warnings.simplefilter('ignore')
+        warnings.simplefilter('always')
         ws = c.check(fix=fix)
     return ws
 
@@ -206,11 +208,15 @@ def inspect(directory, kind, wl, k, clock):
     if kind == 'cache':
         ref.cull_limit = 10
     # the setup ran with lazy culling as well (same settings), so the reference replays it the same way
+    if kind == 'cache':
+        ref.now = SETUP_NOW
     for call in wl['setup']:
         try:
             ref.apply(call)
         except c05.Raise:
             pass
+    if kind == 'cache':
+        ref.now = c05.NOW
     inflight = None
     for u in units:
         if u[1] in done_idx:
@@ -329,7 +335,7 @@ def classify(viol, wl, k):
 def prepare_template(ctx, wl):
     """Directory with the workload's setup applied (by a child process, so the parent holds no connection)."""
     d = ctx.scratch('c07t')
-    k = concdrv.kill_child(d, wl['setup'], kill_n=None, kind=wl['kind'], settings=wl['settings'], timeout=60)
+    k = concdrv.kill_child(d, wl['setup'], kill_n=None, kind=wl['kind'], settings=wl['settings'], timeout=60, now=SETUP_NOW)
     if k['fatal'] or not k['done']:
         raise RuntimeError('setup of %s failed: %r' % (wl['name'], k['fatal']))
     return d
